@@ -1214,6 +1214,9 @@ func collectCallNames(instrs []ssa.Instruction, names map[string]bool, seen map[
 		case *ssa.Lookup:
 			names["maplookup"] = true
 			continue
+		case *ssa.Return:
+			names["return"] = true
+			continue
 		case *ssa.MapUpdate:
 			names["mapupdate"] = true
 			continue
